@@ -77,7 +77,7 @@ pub fn judge_program(ctx: &mut Ctx, s: u64) {
 fn run(ctx: &mut Ctx, extra: &mut BTreeMap<String, String>) {
   let seed = ctx.seed;
   let small = ctx.pass != "release";
-  let n = if ctx.thorough { if small { 3000 } else { 400_000 } } else if small { 300 } else { 12_000 };
+  let n = if ctx.thorough { if small { 3000 } else { 1_500_000 } } else if small { 300 } else { 12_000 };
   extra.insert("programs".into(), format!("{}", n));
   let _ = cone::thresholds();
   run_sharded(ctx, 16, |c, k| {
